@@ -314,7 +314,7 @@ def ser_progx(bt, node, spec_node, bdates):
     name_idx = {k.name: i for i, k in enumerate(kids)}
     st = spec_node["stack"]
     sched, sels, wgh = st[0], st[1:-2], st[-2]
-    toks = [str(KINDS[sched[0]]), E.tB(sched[1]), E.tB(sched[2]), E.tB(sched[3])]
+    toks = ["X", str(KINDS[sched[0]]), E.tB(sched[1]), E.tB(sched[2]), E.tB(sched[3])]
     ucols = [name_idx[c] for c in node._universe.columns if c in name_idx]
     toks.append(E.tL(ucols, str))
     dates = [pd.Timestamp(d) for d in bdates]
@@ -369,3 +369,93 @@ def ser_simx(bt, root, spec_node, snaps, bdates):
         toks.append(E.ser_path(path))
         toks.append(ser_simx(bt, k._paper, spec_at(spec_node, root, k), snaps, bdates))
     return " ".join(toks)
+
+
+# ---------------------------------------------------------------------------------------------------------------
+# fixed-income programs: FixedIncomeStrategy over the five security classes, [RunDaily|RunWeekly, WeighSpecified, SetNotional, Rebalance]
+def fi_whole_run_protocol(ctx, bt, n, corr_name="whole-run-fi", footprint_fields=None):
+    from .props import C17 as FI
+    cfg = E.live_cfg(bt)
+    lines, meta = [], []
+    for _ in range(n):
+        spec = FI.gen_program(ctx.rng)
+        spec["sched"] = ctx.rng.choice(["RunDaily", "RunWeekly"])
+        ctx.count(corr_name + ":programs")
+        try:
+            b = FI.build_program(bt, spec)
+        except Exception as e:  # noqa
+            ctx.count(corr_name + ":build-raised:" + E.classify_exc(e))
+            continue
+        cap = {}
+
+        def hook():
+            root = b.strategy
+            kids = list(root._childrenv)
+            name_idx = {k.name: i for i, k in enumerate(kids)}
+            w = E.snap_world(bt, root)
+            items = [(name_idx[nm], x) for nm, x in spec["weights"].items()]
+            nser = root.get_data("notional")
+            notional = []
+            for d in b.dates:
+                if d in nser.index:
+                    v = float(nser.loc[d])
+                    notional.append(None if v != v else v)
+                else:
+                    notional.append(None)
+            prog = "F %d 1 0 0 %d %s %s %d %s" % (KINDS[spec["sched"]], len(items), " ".join("%d %s" % (i, E.tF(x)) for i, x in items),
+                                                  E.tL(notional, E.tO), len(kids), " ".join("N" for _ in kids))
+            cap["line"] = "%s %s 0" % (E.ser_world(w), prog)
+            cap["root"] = root
+        err = None
+        try:
+            with capture_after_setup(bt, b.strategy, hook):
+                b.run()
+        except Exception as e:  # noqa
+            err = E.classify_exc(e)
+            ctx.count(corr_name + ":real-raised:" + err)
+        if "line" not in cap:
+            continue
+        final = E.snap_world(bt, cap["root"])
+        if E.has_nan_state(final) and err is None:
+            ctx.count(corr_name + ":skipped:nan-state")
+            continue
+        dates = list(range(len(b.dates)))
+        lines.append("wholerunx %s %s %s %s %s" % (E.ser_cfg(cfg), E.tF(float(b.initial_capital)), E.tL(dates, str),
+                                                  E.tL(stamp_tokens(b.dates), str), cap["line"]))
+        meta.append((spec, err, final))
+        ctx.classes.add(("whole-fi", tuple(spec["kinds"]), spec["sched"], spec["integer"], spec["comm"][0], bool(spec["bidoffer"])))
+    outs = leanrun.run_lines(lines) if lines else []
+    nd = nbit = nfl = 0
+    for (spec, err, final), o in zip(meta, outs):
+        detail = None
+        if o.startswith("bad"):
+            detail = {"kind": "driver-rejected", "answer": o[:200]}
+        elif o.startswith("err "):
+            m = o[4:].strip()
+            if err is None:
+                detail = {"kind": "model-raises", "model": m, "real": "ok"}
+            elif err != m:
+                detail = {"kind": "error-kind", "real": err, "model": m}
+        elif err is not None:
+            detail = {"kind": "real-raises", "real": err, "model": "ok"}
+        else:
+            t = E._Toks(o[3:])
+            k = t.nat()
+            stale = t.boo()
+            root = E.parse_node(t)
+            c = E.cmp_world(final, {"stale": stale, "root": root})
+            nbit += c.nbit
+            nfl += c.nfloat
+            diffs = c.diffs
+            if footprint_fields is not None:
+                import re
+                diffs = [d for d in diffs if re.sub(r"\[\d+\]$", "", d["field"]) in footprint_fields]
+            if diffs:
+                detail = {"kind": "state", "diffs": diffs[:6]}
+        if detail is not None:
+            nd += 1
+            ctx.disagreement("corr:%s:%s" % (corr_name, (detail.get("diffs") or [{}])[0].get("field", detail["kind"])), detail, {"spec": spec, "mode": "program"})
+    ctx.count(corr_name + ":floats-compared", nfl)
+    ctx.count(corr_name + ":floats-bit-identical", nbit)
+    ctx.protocols.append((corr_name, len(meta), nd))
+    return len(meta), nd
